@@ -332,6 +332,11 @@ type worker struct {
 	metricCli metrics.Metrics
 
 	lastCompactFailedRawKey []byte
+
+	// liveEventRawKey is the event key whose revision record was seen in this pass and is NOT expired (its newest
+	// change is younger than the ttl, or the record changed while the pass tried to remove it): none of its
+	// versions expires, they are left to the ordinary compaction rules
+	liveEventRawKey []byte
 }
 
 type workerConfig struct {
@@ -603,9 +608,18 @@ func (w *worker) compactIfExpired(iter storage.Iter, rawKey []byte, revision uin
 			rev := binary.BigEndian.Uint64(value[:8])
 			if rev <= w.timeoutRevision {
 				klog.InfoS("compact expired revision key", "raw key", string(rawKey), "rev", rev)
-				return true, w.compactCurrent(iter, rawKey, rev)
+				err = w.compactCurrent(iter, rawKey, rev)
+				if err != nil {
+					// the record is still there (it was rewritten meanwhile, or the delete failed): the key is
+					// not removed as a whole, so its versions stay as well
+					w.liveEventRawKey = rawKey
+				}
+				return true, err
 			}
-		} else if revision <= w.timeoutRevision { // object key timeout
+			// the newest change of this Event is younger than the ttl: an older version of it may still be
+			// what a read at or above the compaction revision has to return
+			w.liveEventRawKey = rawKey
+		} else if revision <= w.timeoutRevision && !bytes.Equal(rawKey, w.liveEventRawKey) { // object key timeout
 			klog.InfoS("compact expired object key", "raw key", string(rawKey), "rev", revision)
 			return true, w.compactKey(iter.Key(), rawKey, revision)
 		}
